@@ -41,6 +41,10 @@ PROGRAMS = [
     ("bare-line-directive", "int before;\n#line 7\nint after;"),
     ("bare-linemarker-and-line-directive", "int u;\n# 40\nint v;\n#line 7\nint w;"),
     ("literals", "unsigned a = 10u; long b = 0x10u; char c = 'u'; float d = 1.0f; char *s = \"u\";"),
+    # the very first token of a text is an identifier that an earlier call
+    # declared as a typedef (lexed before anything else of this call happens)
+    ("first-token-is-the-typedef-name", "T x;"),
+    ("first-token-names-an-implicit-int-function", "T() { return 0; }"),
     ("same-literals-and-tails-elsewhere", "long b =\n 10u + 010u; unsigned long c = 10ul; double e = 10.0f + 0x1.0p1f;\nchar *s = \"u\" \"u\"; int w = L'u';"),
 ]
 FILENAMES = ["a.c", "dir/b.h"]
